@@ -66,7 +66,12 @@ def umeyama_alignment(x: np.ndarray, y: np.ndarray,
 
     # SVD (text betw. eq. 38 and 39)
     u, d, v = np.linalg.svd(cov_xy)
-    if np.count_nonzero(d > np.finfo(d.dtype).eps) < m - 1:
+    # Rank with a tolerance that is also relative to the largest singular
+    # value (as in np.linalg.matrix_rank): the tiny values that the SVD
+    # returns instead of exact zeros must not count for data of any scale.
+    eps = np.finfo(d.dtype).eps
+    rank_tolerance = max(eps, d.max() * max(cov_xy.shape) * eps)
+    if np.count_nonzero(d > rank_tolerance) < m - 1:
         raise GeometryException("Degenerate covariance rank, "
                                 "Umeyama alignment is not possible")
 
